@@ -137,8 +137,7 @@ Proof.
     subst line. destruct (Z.to_nat (col2 - 1)); cbn in Hd; congruence. }
   rewrite Hl, Hadj, Hd. rewrite (gscan_exact b need rest W Hne E).
   destruct W as [|c W']; [reflexivity|]. destruct HW as [Hf HW]. rewrite Hf.
-  replace (match pending with Some _ => true | None => true end) with true by (destruct pending; reflexivity).
-  cbn [andb]. destruct W' as [|n' r']; [subst c; apply Ascii.eqb_refl|exact HW].
+  destruct W' as [|n' r']; [subst c; apply Ascii.eqb_refl|exact HW].
 Qed.
 
 (** ** after the last segment: only line breaks are left *)
@@ -165,7 +164,7 @@ Lemma tail_ok : forall ls minCol col need rest,
   lay_ok ls col minCol (Some newline) need rest = true.
 Proof.
   induction ls as [|line more IH]; intros minCol col need rest Hls Hm Hc Hall.
-  - cbn [lay_ok]. rewrite Ascii.eqb_refl. exact Hall.
+  - cbn [lay_ok]. rewrite Ascii.eqb_refl. cbn [andb]. exact Hall.
   - cbn [forallb] in Hls. apply andb_true_iff in Hls. destruct Hls as [Hl Hls].
     cbn [all_newlines] in Hall. apply andb_true_iff in Hall. destruct Hall as [Hn Hr].
     cbn [lay_ok].
@@ -180,7 +179,7 @@ Proof.
       f_equal. apply all_newlines_no_match; [apply no_newline_b_sdrop; exact Hl|exact Hn]. }
     rewrite Hres.
     assert (Hf : is_fold_char need = true) by (unfold is_fold_char; rewrite Hn; apply orb_true_r).
-    rewrite Hf. cbn [andb]. destruct rest as [|n' r']; [exact Hn|].
+    rewrite Hf. destruct rest as [|n' r']; [exact Hn|].
     apply Ascii.eqb_eq in Hn. subst need. apply IH; assumption.
 Qed.
 
@@ -243,60 +242,36 @@ Proof.
         apply Z.eqb_neq in E0. pose proof (slen_nonneg (spaces n)).
         unfold adjust_col. destruct (Z.min (slen (spaces n)) minCol <=? 0) eqn:E1; [apply Z.leb_le in E1; lia|].
         f_equal. apply all_newlines_no_match; [apply no_newline_b_sdrop; apply spaces_no_newline|reflexivity]. }
-      rewrite Hres. cbn [is_fold_char]. replace (is_fold_char newline) with true by reflexivity.
-      cbn [andb]. destruct W2 as [|n' r']; [reflexivity|]. exact Hrest.
+      rewrite Hres. replace (is_fold_char newline) with true by reflexivity.
+      destruct W2 as [|n' r']; [reflexivity|]. exact Hrest.
 Qed.
 
 Lemma skipn_app_exact {A} (pre l : list A) : skipn (List.length pre) (pre ++ l) = l.
 Proof. induction pre; [reflexivity|]. cbn. exact IHpre. Qed.
 
-Lemma nomatch_line_ok line more col minCol need rest col2 :
-  slen line =? 0 = false ->
-  adjust_col line col need rest = Some col2 ->
-  gscan (sdrop (Z.to_nat (col2 - 1)) line) need rest = (false, Some (need, rest)) ->
-  is_fold_char need = false ->
-  lay_ok more minCol minCol None need rest = true ->
-  lay_ok (line :: more) col minCol None need rest = true.
-Proof.
-  intros Hl Ha Hg Hf Hrest. cbn [lay_ok]. rewrite Hl, Ha, Hg, Hf. cbn [negb andb]. exact Hrest.
-Qed.
-
 (** ** Block scalars *)
+
+Lemma skipn_app_succ {A} (pre : list A) x l : skipn (S (List.length pre)) (pre ++ x :: l) = l.
+Proof. induction pre; [reflexivity|]. cbn [List.length app skipn]. exact IHpre. Qed.
 
 Theorem block_node_ok : forall literal b minCol,
   block_ok literal b minCol = true ->
   node_ok (bl_lines b) (bl_node literal b) minCol = true.
 Proof.
   intros literal b minCol H. unfold block_ok in H.
-  destruct (bl_header b) as [|h hr] eqn:Eh; [discriminate|].
-  destruct (bl_first b) as [|f fr] eqn:Ef; [discriminate|].
   repeat (apply andb_true_iff in H; destruct H as [H ?]).
-  rename H into Hh, H0 into Haf, H1 into Hitems, H2 into Hm, H3 into Hi, H4 into Hg4, H5 into Hns, H6 into Hfold.
-  apply negb_true_iff in Hh. apply negb_true_iff in Hfold. apply negb_true_iff in Hg4.
+  rename H into Hnn, H0 into Haf, H1 into Hitems, H2 into Hm, H3 into Hi, H4 into Hns.
   apply Z.leb_le in Hm. apply Z.leb_le in Hi.
-  unfold node_ok, bl_node, bl_value. cbn [sn_value sn_line sn_col]. rewrite Ef. cbn [append].
-  replace (1 <=? Z.of_nat (List.length (bl_pre b)) + 1) with true by (symmetry; apply Z.leb_le; lia).
+  pose proof (has_nonspace_nonempty _ Hns) as Hne.
+  unfold node_ok, bl_node. cbn [sn_value sn_line sn_col sn_block sn_anchor].
+  unfold bl_value in *. destruct (bl_first b) as [|f fr] eqn:Ef; [contradiction|]. cbn [append] in *.
+  rewrite Hnn. cbn [andb].
+  replace (0 <=? Z.of_nat (List.length (bl_pre b)) + 1) with true by (symmetry; apply Z.leb_le; lia).
   cbn [andb]. unfold bl_lines.
-  replace (Z.to_nat (Z.of_nat (List.length (bl_pre b)) + 1 - 1)) with (List.length (bl_pre b)) by lia.
-  rewrite skipn_app_exact. rewrite Eh, Ef.
-  (* the key line: nothing of the value occurs in the header *)
-  set (V := (fr ++ vsuffix (block_sep literal) (bl_items b) (bl_tail b))%string).
-  destruct (adjust_keyline (bl_keyline_pre b) (String h hr) EmptyString h hr ltac:(discriminate)
-                           ltac:(cbn; exact Hh) ltac:(rewrite sapp_nil_r; reflexivity)) as [_ Hd].
-  assert (Hl : slen (bl_keyline_pre b ++ String h hr) =? 0 = false).
-  { apply Z.eqb_neq. rewrite slen_app, slen_String. pose proof (slen_nonneg (bl_keyline_pre b)). pose proof (slen_nonneg hr). lia. }
-  assert (Hadj : adjust_col (bl_keyline_pre b ++ String h hr) (slen (bl_keyline_pre b) + 1) f V = Some (slen (bl_keyline_pre b) + 1)).
-  { unfold adjust_col. rewrite slen_app, slen_String.
-    pose proof (slen_nonneg (bl_keyline_pre b)). pose proof (slen_nonneg hr).
-    replace (Z.min (slen (bl_keyline_pre b) + (slen hr + 1)) (slen (bl_keyline_pre b) + 1)) with (slen (bl_keyline_pre b) + 1) by lia.
-    replace (slen (bl_keyline_pre b) + 1 <=? 0) with false by (symmetry; apply Z.leb_gt; lia).
-    pose proof (count_leading_space_nonneg (String f V)) as Hvs.
-    set (vs := count_leading_space (String f V)) in *.
-    rewrite Hd. cbn [count_leading_space]. rewrite Hh.
-    replace (vs <? 0) with false by (symmetry; apply Z.ltb_ge; lia).
-    reflexivity. }
-  apply (nomatch_line_ok _ _ _ _ _ _ _ Hl Hadj); [rewrite Hd; apply gscan_absent; exact Hg4|exact Hfold|].
+  replace (Z.to_nat (Z.of_nat (List.length (bl_pre b)) + 1)) with (S (List.length (bl_pre b))) by lia.
+  rewrite skipn_app_succ. rewrite Ef.
   (* the first content line *)
+  set (V := (fr ++ vsuffix (block_sep literal) (bl_items b) (bl_tail b))%string).
   assert (Hns' : has_nonspace (String f fr) = true) by exact Hns.
   destruct (adjust_content (bl_indent b) (String f fr) (vsuffix (block_sep literal) (bl_items b) (bl_tail b)) minCol f V
                            Hns' Hi Hm eq_refl) as [Ha Hdc].
@@ -334,20 +309,30 @@ Proof.
   apply (IH c2 W2 Hm Hr). reflexivity.
 Qed.
 
+Lemma first_col_plain pre rest v l :
+  ascii_only pre = true ->
+  first_col (pre ++ rest) (mksn v l (slen pre + 1) false EmptyString) = slen pre + 1.
+Proof. intros Ha. unfold first_col. cbn [sn_col sn_anchor]. apply byte_column_ascii. exact Ha. Qed.
+
 Theorem plain_ml_node_ok : forall p minCol,
   pm_ok p minCol = true -> node_ok (pm_lines p) (pm_node p) minCol = true.
 Proof.
   intros p minCol H. unfold pm_ok in H.
   repeat (apply andb_true_iff in H; destruct H as [H ?]).
-  rename H into Hns, H0 into Hmore, H1 into Hm, H2 into Hsp.
+  rename H into Hnn, H0 into Hmore, H1 into Hm, H2 into Hsp, H3 into Hns, H4 into Hasc.
   apply negb_true_iff in Hsp. apply Z.leb_le in Hm.
   pose proof (has_nonspace_nonempty _ Hns) as Hne.
-  unfold node_ok, pm_node, pm_value. cbn [sn_value sn_line sn_col].
-  destruct (pm_first p) as [|f fr] eqn:Ef; [contradiction|]. cbn [append].
+  unfold node_ok, pm_node, mksn0. cbn [sn_value sn_line sn_col sn_block sn_anchor].
+  unfold pm_value in *.
+  destruct (pm_first p) as [|f fr] eqn:Ef; [contradiction|]. cbn [append] in *.
+  rewrite Hnn. cbn [andb].
   replace (1 <=? Z.of_nat (List.length (pm_pre p)) + 1) with true by (symmetry; apply Z.leb_le; lia).
   cbn [andb]. unfold pm_lines.
   replace (Z.to_nat (Z.of_nat (List.length (pm_pre p)) + 1 - 1)) with (List.length (pm_pre p)) by lia.
-  rewrite skipn_app_exact. rewrite Ef.
+  rewrite skipn_app_exact. rewrite Ef. cbv zeta.
+  assert (Hl0 : slen (pm_keyline_pre p ++ String f fr) =? 0 = false).
+  { apply Z.eqb_neq. rewrite slen_app, slen_String. pose proof (slen_nonneg (pm_keyline_pre p)). pose proof (slen_nonneg fr). lia. }
+  rewrite Hl0. rewrite (first_col_plain _ _ _ _ Hasc).
   destruct (adjust_keyline (pm_keyline_pre p) (String f fr) (pm_suffix (pm_more p)) f (fr ++ pm_suffix (pm_more p))%string
                            ltac:(discriminate) Hsp eq_refl) as [Ha Hd].
   eapply segment_line_ok with (b := String f fr) (W := pm_suffix (pm_more p));
